@@ -97,6 +97,7 @@ def pipeline_binding():
 
 
 def main(argv):
+    gen.trace_dir()
     ok = True
     ok &= spec_mutants()
     ok &= pager_binding()
